@@ -395,3 +395,33 @@ void h_cursor(void)
   VERIF_CANARY;
 }
 #endif
+
+/* ------------------------------------------------------------------------------------------------
+ * DistributionConstraint::generateSeparationConstraints, whole function, BOUNDED (0 to 3 pairs over 4 guidelines):
+ * in its primary dimension EVERY alignment pair (g1, g2) of the list yields the equality  g1.variable + sep == g2.variable, in list order, owned by the
+ * constraint and mirrored in its own list `cs`; a pair with a guideline that has no variable is an InvalidConstraint; the other dimension yields nothing. */
+#if defined(JOB_dist_whole)
+void verif_dist_scene(unsigned n, int primary, double sep, unsigned a0, unsigned b0, unsigned a1, unsigned b1, unsigned a2, unsigned b2, unsigned nullmask);
+void w_dist_generate(int dim); unsigned long verif_ngcs(void); unsigned long verif_ncs(void); int verif_g_left(unsigned k); int verif_g_right(unsigned k);
+double verif_g_gap(unsigned k); int verif_g_eq(unsigned k); int verif_g_own(unsigned k);
+void h_dist(void)
+{
+  unsigned n, a[3], b[3], nullmask; int primary, dim; double sep;
+  __CPROVER_assume(n <= 3 && nullmask < 16 && (primary == 0 || primary == 1) && (dim == 0 || dim == 1) && !__CPROVER_isnand(sep));
+  for (int k = 0; k < 3; ++k) __CPROVER_assume(a[k] < 4 && b[k] < 4);
+  verif_dist_scene(n, primary, sep, a[0], b[0], a[1], b[1], a[2], b[2], nullmask);
+  verif_thrown = 0;
+  w_dist_generate(dim);
+  if (dim != primary) __CPROVER_assert(verif_ngcs() == 0 && !verif_thrown, "SPEC a distribution yields nothing in the other dimension");
+  else {
+    unsigned good = n;                                   /* number of pairs before the first invalid one */
+    for (unsigned k = 0; k < 3; ++k) if (k < n && good == n && (((nullmask >> a[k]) & 1u) || ((nullmask >> b[k]) & 1u))) good = k;
+    __CPROVER_assert((verif_thrown != 0) == (good < n), "SPEC InvalidConstraint exactly when some pair names a guideline without a variable");
+    __CPROVER_assert(verif_ngcs() == good && verif_ncs() == good, "SPEC one equality per alignment pair (up to the first invalid pair), none skipped, none added");
+    for (unsigned k = 0; k < 3; ++k) if (k < good && k < verif_ngcs())
+      __CPROVER_assert(verif_g_left(k) == (int)a[k] && verif_g_right(k) == (int)b[k] && verif_g_gap(k) == sep && verif_g_eq(k) && verif_g_own(k),
+                       "SPEC pair k yields  g1.variable + sep == g2.variable, owned by the distribution and mirrored in its own list");
+  }
+  VERIF_CANARY;
+}
+#endif
